@@ -652,16 +652,14 @@ fn flatten_shapes() -> Value {
         ("a single flattened enum is the union itself", flat::One::inline(), Some(ea.to_string())),
         ("fields and a flattened enum", flat::OnePlus::inline(), Some(format!("{{ k: number, }} & ({ea})"))),
         ("two flattened enums", flat::Two::inline(), Some(format!("({ea}) & ({eb})"))),
-        ("a flattened struct that flattens two enums keeps its brackets balanced", flat::Nested::inline(), None),
+        ("a flattened struct that flattens two enums keeps its brackets balanced", flat::Nested::inline(), Some(format!("({ea}) & ({eb})"))),
     ];
     let mut out = vec![];
     let mut agree = true;
     for (what, got, want) in cases {
         let ok = balanced(&got) && want.as_ref().map_or(true, |w| &got == w);
-        // the nested case is known finding D13: it does not count against `agree`
-        let known = what.starts_with("a flattened struct that flattens two enums");
-        if !ok && !known { agree = false; }
-        out.push(json!({"case": what, "binding": got, "expected": want.unwrap_or_else(|| "brackets balanced".to_string()), "agree": ok || known, "matches": ok}));
+        if !ok { agree = false; }
+        out.push(json!({"case": what, "binding": got, "expected": want.unwrap_or_else(|| "brackets balanced".to_string()), "agree": ok, "matches": ok}));
     }
     json!({"cases": out, "agree": agree})
 }
